@@ -226,4 +226,16 @@ PROPERTIES = {
         "rule": "C06: exactly-once execution",
         "parts": [part("C06.sim", shards={"quick": 16, "thorough": 16}, floor=50, timeout={"quick": 900, "thorough": 14400})],
     },
+    "C05": {
+        "level": "exploration",
+        "level_text": "bounded-progress monitor: hostile prefixes followed by a synchronous suffix among a live honest quorum in the virtual-time simulator; progress is measured in logical "
+                      "rounds and views (fixed bounds), plus the fault-free lock-step claims checked view by view",
+        "level_note": "liveness restated as bounded progress in logical rounds; wall clock only in a watchdog; unbounded eventuality, real-time timers and dynamic view duration are out of reach",
+        "technique": "runtime monitor (progress counter over commit/view-change events) on prefix+synchronous-suffix executions",
+        "rule": "C05: bounded progress",
+        "parts": [
+            part("C05.progress", shards={"quick": 16, "thorough": 16}, floor=100, timeout={"quick": 900, "thorough": 14400}),
+            part("C05.faultfree", shards={"quick": 16, "thorough": 16}, floor=20),
+        ],
+    },
 }
